@@ -196,17 +196,22 @@ pub broadcast axiom fn axiom_cbor_roundtrip(v: Value, rest: Seq<u8>)
         ciborium::de::spec_cbor_len::<Value>(ciborium::de::spec_cbor_bytes::<Value>(v) + rest) == Some(ciborium::de::spec_cbor_bytes::<Value>(v).len() as int),
         ciborium::de::spec_cbor_val::<Value>(ciborium::de::spec_cbor_bytes::<Value>(v) + rest) == v,
         ciborium::de::spec_cbor_bytes::<Value>(v).len() >= 1;
-pub open spec fn sections_agree_with_flags(d: AuthenticatorData) -> bool {
-    &&& d.flags.bits & 0x22u8 == 0
-    &&& (d.flags.has(6) ==> d.attested_credential_data is Some)
+// what C12 says of a value "built with the provided constructor and setters": the AT and ED flag bits are set exactly
+// when the respective section is present (no reserved bit is a property of every `Flags` value; the id bound is the
+// one `AttestedCredentialData::new` enforces).  `new` establishes it, every setter must keep it.
+pub open spec fn no_reserved(f: Flags) -> bool { !f.has(1) && !f.has(5) }
+pub open spec fn built_inv(d: AuthenticatorData) -> bool {
+    &&& no_reserved(d.flags)
+    &&& (d.flags.has(6) <==> d.attested_credential_data is Some)
     &&& (d.flags.has(7) <==> d.extensions is Some)
     &&& (d.attested_credential_data matches Some(a) ==> a.credential_id@.len() <= 65535)
 }
+pub open spec fn sections_agree_with_flags(d: AuthenticatorData) -> bool { built_inv(d) }
 pub fn vx_encode_then_decode(d: &AuthenticatorData) -> (r: coset::Result<AuthenticatorData>)
     requires sections_agree_with_flags(*d),
     ensures r matches Ok(x) && ({
         &&& x.rp_id_hash@ == d.rp_id_hash@
-        &&& x.flags.bits == (if d.attested_credential_data is Some { d.flags.bits | 0x40u8 } else { d.flags.bits })
+        &&& x.flags.bits == d.flags.bits
         &&& x.counter == Some(match d.counter { Some(c) => c, None => 0u32 })
         &&& (x.attested_credential_data is Some <==> d.attested_credential_data is Some)
         &&& (d.attested_credential_data matches Some(a) ==> ({ let y = x.attested_credential_data.unwrap(); y.aaguid.0@ == a.aaguid.0@ && y.credential_id@ == a.credential_id@ && y.key == a.key }))
@@ -229,6 +234,8 @@ pub fn vx_encode_then_decode(d: &AuthenticatorData) -> (r: coset::Result<Authent
         assert(rest =~= aa + ee);
         // flag byte: no reserved bits, bit 6 / 7 follow the sections
         let f0 = d.flags.bits;
+        assert(((f0 >> 1u8) & 1 != 1 && (f0 >> 5u8) & 1 != 1) ==> f0 & 0x22u8 == 0) by(bit_vector);
+        assert((f0 >> 6u8) & 1 == 1 ==> f0 | 0x40u8 == f0) by(bit_vector);
         assert(f0 & 0x22u8 == 0 ==> (f0 | 0x40u8) & 0x22u8 == 0) by(bit_vector);
         assert(bit(f0 | 0x40u8, 6) && bit(f0 | 0x40u8, 7) == bit(f0, 7)) by(bit_vector);
         assert((f0 & 0x22u8 == 0 && !bit(f0, 6) && !bit(f0, 7)) ==> f0 & 0xe2u8 == 0) by(bit_vector);
